@@ -149,8 +149,8 @@ def expectedSites : List (String × String × String × String × Nat × Bool) :
   ("boltz/query_sort.go", "boolSymbolComparator.Compare", "deref", "*s1", 2, true),
   ("boltz/query_sort.go", "boolSymbolComparator.Compare", "deref", "*s2", 2, true),
   ("boltz/query_sort.go", "datetimeSymbolComparator.Compare", "deref", "*s2", 2, true),
-  ("boltz/query_sort.go", "float64SymbolComparator.Compare", "deref", "*s1", 2, true),
-  ("boltz/query_sort.go", "float64SymbolComparator.Compare", "deref", "*s2", 2, true),
+  ("boltz/query_sort.go", "float64SymbolComparator.Compare", "deref", "*s1", 6, true),
+  ("boltz/query_sort.go", "float64SymbolComparator.Compare", "deref", "*s2", 6, true),
   ("boltz/query_sort.go", "int64SymbolComparator.Compare", "deref", "*s1", 2, true),
   ("boltz/query_sort.go", "int64SymbolComparator.Compare", "deref", "*s2", 2, true),
   ("boltz/query_sort.go", "stringSymbolComparator.Compare", "deref", "*s1", 2, true),
@@ -175,8 +175,8 @@ def expectedSites : List (String × String × String × String × Nat × Bool) :
   ("objectz/object_store_sort.go", "objectBoolSymbolComparator.compare", "deref", "*s1", 2, true),
   ("objectz/object_store_sort.go", "objectBoolSymbolComparator.compare", "deref", "*s2", 2, true),
   ("objectz/object_store_sort.go", "objectDatetimeSymbolComparator.compare", "deref", "*s2", 2, true),
-  ("objectz/object_store_sort.go", "objectFloat64SymbolComparator.compare", "deref", "*s1", 2, true),
-  ("objectz/object_store_sort.go", "objectFloat64SymbolComparator.compare", "deref", "*s2", 2, true),
+  ("objectz/object_store_sort.go", "objectFloat64SymbolComparator.compare", "deref", "*s1", 6, true),
+  ("objectz/object_store_sort.go", "objectFloat64SymbolComparator.compare", "deref", "*s2", 6, true),
   ("objectz/object_store_sort.go", "objectInt64SymbolComparator.compare", "deref", "*s1", 2, true),
   ("objectz/object_store_sort.go", "objectInt64SymbolComparator.compare", "deref", "*s2", 2, true),
   ("objectz/object_store_sort.go", "objectStringSymbolComparator.compare", "deref", "*s1", 2, true),
